@@ -190,6 +190,7 @@ def replay(rep, ld, hist, L, workdir):
 
 
 _HEARTBEAT = [None]
+_ROOT = [None]            # scratch directory, created by the watching process so that it can remove it whatever happens to the worker
 
 
 class _EarlyStop(Exception):
@@ -221,6 +222,14 @@ def run(rep):
     import select
     import time
     STALL = 180
+    _ROOT[0] = core.scratch('c16-')
+    try:
+        _watch(rep, STALL, select, time)
+    finally:
+        shutil.rmtree(_ROOT[0], ignore_errors=True)
+
+
+def _watch(rep, STALL, select, time):
     r, w = os.pipe()
     sys.stdout.flush()
     sys.stderr.flush()
@@ -284,7 +293,7 @@ def _run(rep):
     r = core.model_check('MC_DiskCache', mc_cfg(3, False, 3, ['ResultCorrect']), workers=4, expect_violation='ResultCorrect')
     rep.add_model('MC_DiskCache KeyAll=FALSE (negative control: cache name as originally coded)', r, negative_control=True)
 
-    root = core.scratch('c16-')
+    root = _ROOT[0] if _ROOT[0] is not None else core.scratch('c16-')
     try:
         loaders = {k: Loader(k, root / k) for k in ('vasprun', 'lammps')}
         for ld in loaders.values():          # different parser options use different default cache files
